@@ -36,8 +36,8 @@ Inits3 == {Vec3(a, b, s) : a \in 0..3, b \in 0..3, s \in 0..2} \ {Vec3(0, 0, 0)}
 \* Mg(OH)2(s) = Mg+2 + 2 OH-  (species order OH-, Mg+2, solid):  K = a^2 b
 GP_All ==
     UNION {
-      {[S |-> {12}, lnK |-> <<k>>, c0 |-> v] : v \in Inits3, k \in {2 * LnTab[2], LnTab[2] + LnTab[3], 2 * LnTab[1]}},
-      {[S |-> {15}, lnK |-> <<-k>>, c0 |-> v] : v \in Inits3, k \in {2 * LnTab[2], LnTab[2] + LnTab[3]}},
-      {[S |-> {13}, lnK |-> <<k>>, c0 |-> v] : v \in Inits3, k \in {2 * LnTab[2] + LnTab[1], 2 * LnTab[1] + LnTab[2]}},
+      {[S |-> {12}, lnK |-> <<k>>, c0 |-> v] : v \in Inits3, k \in {2 * LnTab[2], LnTab[2] + LnTab[3]}},
+      {[S |-> {15}, lnK |-> <<-k>>, c0 |-> v] : v \in Inits3, k \in {2 * LnTab[2]}},
+      {[S |-> {13}, lnK |-> <<k>>, c0 |-> v] : v \in Inits3, k \in {2 * LnTab[2] + LnTab[1]}},
       {[S |-> {16}, lnK |-> <<-k>>, c0 |-> v] : v \in Inits3, k \in {2 * LnTab[2] + LnTab[1]}} }
 =============================================================================
